@@ -490,7 +490,150 @@ def r14_5(ctx, prog, crate):
     filter_is_match_rule(ctx, "R14.5", prog, crate)
 
 
+def r14_6(ctx, prog, crate):
+    """The listed path is `parent::name` (just `name` at the root) for every node: on every path through one iteration
+    of run_tree_list's loop, the content of the reused path buffer when it is first read (recursion, println!) is
+    exactly [parent_path, "::", display_name(child)] when parent_path is non-empty and [display_name(child)] when it
+    is empty - whatever the buffer held after the previous sibling. Content is tracked through String::clear /
+    push_str / truncate(0) / truncate(<the buffer's own length captured before the loop>)."""
+    from lib.patheval import PathEval
+    from lib.symexpr import PURE
+    b = prog.body("divan::Divan::run_tree_list", crate)
+    if not ctx.anchor("R14.6", "Divan::run_tree_list", 1 if b else 0, 1):
+        return
+    ctx.saw(b)
+    S_ = "std::string::String::"
+    mk = [c for c in b.live_calls() if c.callee in (S_ + "with_capacity", S_ + "new")]
+    if not mk:
+        # no reused buffer: a fresh string per node (format!-style, as EntryTree::retain does). Nothing can be left over from
+        # the previous sibling; what remains checkable is that the pieces are the parent path and this node's display name.
+        fm = [c for c in b.live_calls() if c.callee in ("std::fmt::Arguments::new", "core::fmt::Arguments::new", "std::fmt::format", "alloc::fmt::format")]
+        ok = False
+        for c in fm:
+            lab = {z.label() for a in c.args for z in b.prov.op_src(a)}
+            if any(x.startswith("param:") and b.local_ty_of_param(x[6:].split(".")[0]) == "&str" for x in lab) and any("EntryTree::display_name" in x for x in lab):
+                ok = True
+        ctx.check(ok, "R14.6", ["run_tree_list", "fresh-string-from-parent-and-name"], "run_tree_list neither reuses a path buffer nor formats the parent path with the node's display name", b.where(0))
+        ctx.note("run_tree_list builds a fresh string per node: the buffer-content rule does not apply; only the provenance of the formatted pieces was checked")
+        return
+    if not ctx.check(len(mk) == 1, "R14.6", ["run_tree_list", "one-path-buffer"], "String buffers created in run_tree_list: %d (the rule follows a single reused buffer)" % len(mk), b.where(0)):
+        return
+    mk = mk[0]
+    L = mk.dest["l"]
+
+    def on_buf(c):
+        return any(z.kind == "call" and z.b == mk.bb for a in c.args for z in b.prov.op_src(a))
+    MUT = ("clear", "push_str", "push", "truncate", "insert", "insert_str", "pop", "remove", "drain", "retain", "replace_range", "extend", "as_mut_str", "as_mut_vec", "split_off")
+    touch = [c for c in b.live_calls() if c.bb != mk.bb and on_buf(c)]
+    muts = [c for c in touch if c.callee.startswith(S_) and c.callee.rsplit("::", 1)[-1] in MUT] + \
+        [c for c in touch if not c.callee.startswith(S_) and c.args and c.args[0]["k"] in ("move", "copy") and (b.local_ty(c.args[0]["p"]["l"]) or "").startswith("&mut ") and
+         any(z.kind == "call" and z.b == mk.bb for z in b.prov.op_src(c.args[0]))]
+    lps = [l for l in b.loops if any(m.bb in l["body"] for m in muts)]
+    if not ctx.check(bool(lps), "R14.6", ["run_tree_list", "loop"], "the path buffer is not built inside a loop over the nodes", b.where(0)):
+        return
+    lp = max(lps, key=lambda l: len(l["body"]))
+    readers = [c for c in touch if c not in muts and c.bb in lp["body"] and not (c.callee.startswith(S_) and c.callee.rsplit("::", 1)[-1] in ("len", "capacity", "is_empty", "reserve"))]
+    if not ctx.anchor("R14.6", "reads of the path buffer in the loop", len(readers), 3):
+        return
+    # no mutation after a read within the same iteration
+    for r in readers:
+        after = b.reach(b.succ[r.bb], avoid=[lp["header"]])
+        late = [m for m in muts if m.bb in after and m.bb in lp["body"]]
+        ctx.check(not late, "R14.6", ["run_tree_list", "built-before-read"], "the path buffer is modified (%s) after it was read at %s within one iteration" % ([m.callee for m in late], r.line()), r.line())
+    pure = tuple(x for x in PURE if x != S_ + "len") + ("core::str::is_empty",)
+    isbuf = lambda e: e == ("undef", L) or e == ("ptr", (L, ())) or e == ("sptr", (L, ())) or (e[0] == "site" and e[2] == mk.bb)
+
+    def ops_of(s, upto_bb=None):
+        out = []
+        for callee, args, bb in s.calls:
+            if upto_bb is not None and bb == upto_bb:
+                break
+            if callee.startswith(S_) and args and isbuf(args[0]) and callee.rsplit("::", 1)[-1] in MUT:
+                out.append((callee.rsplit("::", 1)[-1], args[1:], bb))
+        return out
+    # pre-loop content (only needed for the truncate-to-prefix idiom)
+    pre = PathEval(b, pure=pure, max_paths=4000).run(start=0, stop_at={lp["header"]})
+    sums = PathEval(b, pure=pure, max_paths=8000).run(start=lp["header"], stop_at={r.bb for r in readers} | set(lp["latches"]))
+    if not ctx.check(bool(sums) and pre is not None, "R14.6", ["run_tree_list", "paths"], "cannot enumerate the paths of one iteration of run_tree_list's loop", b.where(lp["header"])):
+        return
+    in_loop_kinds = {m.callee.rsplit("::", 1)[-1] for m in muts if m.bb in lp["body"]}
+
+    def content(s):
+        """list of (pieces, extra conds) alternatives, or None when the content depends on the previous iteration."""
+        alts = [(None, ())]     # None = whatever the previous sibling left
+        for kind, args, bb in ops_of(s):
+            if kind == "clear" or (kind == "truncate" and args and args[0] == ("int", 0)):
+                alts = [([], ())]
+            elif kind in ("push_str", "push") and args:
+                alts = [((p + [args[0]]) if p is not None else None, c) for p, c in alts]
+            elif kind == "truncate" and args and in_loop_kinds <= {"truncate", "push_str", "push"}:
+                # the buffer's own length, captured before the loop after its last pre-loop modification: the prefix built there
+                new = []
+                for ps in pre:
+                    nexp = args[0]
+                    if nexp[0] == "undef" and hasattr(ps, "env"):
+                        nexp = ps.env.get(nexp[1], nexp)
+                    if not (nexp[0] == "site" and nexp[1] == S_ + "len" and nexp[2] not in lp["body"] and nexp[3] and isbuf(nexp[3][0])):
+                        return None
+                    lb = nexp[2]
+                    allops = ops_of(ps)
+                    upto = ops_of(ps, upto_bb=lb)
+                    if lb not in ps.blocks or len(allops) != len(upto):
+                        return None
+                    p = []
+                    for k2, a2, _ in upto:
+                        if k2 in ("push_str", "push") and a2:
+                            p.append(a2[0])
+                        elif k2 == "clear":
+                            p = []
+                        else:
+                            return None
+                    new.append((p, tuple(ps.conds)))
+                alts = new
+            else:
+                return None
+        return alts
+    n = 0
+    keys = set()
+    for s in sums:
+        stop = s.blocks[-1]
+        if stop not in {r.bb for r in readers}:
+            continue
+        alts = content(s)
+        if alts is None or any(p is None for p, _ in alts):
+            ctx.fail("R14.6", ["run_tree_list", "content-independent-of-the-previous-sibling"],
+                     "on a path to the read at %s the path buffer still depends on what the previous sibling left in it (no clear / truncate to the prefix before the pieces are pushed)" % b.where(stop), b.where(stop))
+            return
+        for pieces, extra in alts:
+            conds = list(s.conds) + list(extra)
+            emp = {p for a, p in conds if a[0] == "bool" and a[1][0] == "call" and a[1][1] == "core::str::is_empty"}
+            subj = {a[1][2][0] for a, p in conds if a[0] == "bool" and a[1][0] == "call" and a[1][1] == "core::str::is_empty"}
+            if len(emp) == 2:
+                continue        # contradictory combination of a pre-loop and an in-loop path
+            names = [p for p in pieces if p[0] == "sptr" and isinstance(p[1][0], tuple) and p[1][0][0] == "ret" and p[1][0][1] == "entry::tree::EntryTree::display_name" and p[1][0][2] in lp["body"]]
+            seps = [p for p in pieces if p == ("opaque", 'const:"::"')]
+            parents = [p for p in pieces if p[0] == "sptr" and isinstance(p[1][0], int) and 1 <= p[1][0] <= b.arg_count and (b.local_ty(p[1][0]) or "") == "&str"]
+            shape = ["name" if p in names else "sep" if p in seps else "parent" if p in parents else "?" for p in pieces]
+            key = (tuple(sorted(emp)), tuple(shape))
+            if key in keys:
+                continue
+            keys.add(key)
+            n += 1
+            if emp == {True}:
+                ok = shape == ["name"]
+            elif emp == {False}:
+                ok = shape == ["parent", "sep", "name"] and set(parents) == subj
+            else:
+                ok = shape == ["name"] and not parents   # no test at all: only right if nothing depends on the parent
+                ok = False
+            ctx.check(ok, "R14.6", ["run_tree_list", "parent-empty" if emp == {True} else "parent-non-empty" if emp == {False} else "parent-untested", "path-is-parent::name"],
+                      "when parent_path %s the listed path is built from [%s]; expected %s" % ("is empty" if emp == {True} else "is not empty" if emp == {False} else "is not tested", ", ".join(shape),
+                                                                                                "[name]" if emp == {True} else "[parent, sep, name]"), b.where(stop))
+    ctx.anchor("R14.6", "distinct (parent emptiness, content) cases at the reads", n, 2)
+
+
 def run(ctx, prog, crate):
+    r14_6(ctx, prog, crate)
     r14_5(ctx, prog, crate)
     r14_1(ctx, prog, crate)
     r14_2(ctx, prog, crate)
